@@ -492,3 +492,143 @@ Proof.
     rewrite BL in e. now rewrite (zlen_0_nil _ e). }
   destruct (_ && _); (eapply K; [| |exact E]; cbn; auto).
 Qed.
+
+Theorem read_conservation_high_water : forall c disk conv len p iv strict evs,
+  1 <= chunk_size c -> read_params_ok p -> 0 <= len ->
+  let s0 := st_init (op_init false disk conv len [] p iv strict) in
+  run_ok c s0 evs = true ->
+  let s := run c s0 evs in
+  cdata (s_calls s) ++ pending (s_op s) = s_io s /\
+  (len < SIZE_MAX -> zlen (s_io s) <= len) /\
+  small (p_high p) (s_calls s).
+Proof.
+  intros c disk conv len p iv strict evs Hc Hp Hl s0 Hok s.
+  assert (R : RSt (p_high p) len s) by (apply run_RSt; auto; now apply RSt_init).
+  destruct R as ((Hd & _ & _ & _ & _ & _ & _ & Htot) & P & T & S & Hh & L).
+  repeat split; auto. intros HH. rewrite <- T. rewrite L in Htot. destruct (Htot HH). lia.
+Qed.
+
+(* the step that completes a read flushes everything that was buffered *)
+Theorem read_completion_flushes : forall c disk conv len p iv strict evs,
+  1 <= chunk_size c -> read_params_ok p -> 0 <= len ->
+  let s0 := st_init (op_init false disk conv len [] p iv strict) in
+  run_ok c s0 evs = true ->
+  let s := run c s0 evs in
+  pending (s_op (complete s)) = [] /\ cdata (s_calls (complete s)) = s_io s.
+Proof.
+  intros c disk conv len p iv strict evs Hc Hp Hl s0 Hok s.
+  assert (R : RSt (p_high p) len s) by (apply run_RSt; auto; now apply RSt_init).
+  pose proof (complete_pending_read _ _ _ R) as E. split; auto.
+  destruct (RSt_complete _ _ _ R) as (_ & P & _). rewrite E, app_nil_r in P.
+  unfold complete in *. destruct (deliver_data _ _ _); cbn in *. exact P.
+Qed.
+
+(* ------------------------------------------------------------------ low water, as coded *)
+Lemma deliver_unforced_low stp fl o : f_deliver fl = false -> f_done fl = false -> o_flagd o = false ->
+  snd (deliver_data stp fl o) <> [] -> o_low o <= o_undelivered o + o_buf_len o.
+Proof.
+  intros A B C. unfold deliver_data. rewrite A, B, C. cbn [orb]. unfold dd_decide. cbn [negb o_low set_flagd o_buf_len o_buf_siz].
+  rewrite Z.geb_leb. destruct (Z.leb_spec (o_low o) (o_undelivered o + o_buf_len o)); auto.
+  destruct (_ <? _); cbn; try congruence.
+  destruct (dd_data false _) as [d o2]. unfold dd_finish. cbn. congruence.
+Qed.
+
+(* ------------------------------------------------------------------ ECANCELED *)
+Theorem canceled_when_scheduled_after_close : forall closed stopped write len d,
+  closed || stopped = true ->
+  create_or_enqueue closed stopped 0 write len d =
+    Some (mkCall true (if write then Some (flat d) else None) ECANCELED 0 true).
+Proof. intros [|] [|] [|] len d H; try discriminate; reflexivity. Qed.
+
+Lemma handler_calls_done_err w fl forced d err tot : f_done fl = true ->
+  exists pre k, handler_calls w fl forced d err tot = pre ++ [k] /\ c_done k = true /\ c_err k = err /\
+    (w = true -> c_data k = if err =? 0 then None else Some (flat d)) /\ c_total k = tot.
+Proof.
+  intros H. unfold handler_calls. rewrite H.
+  destruct w; cbn [negb andb].
+  - destruct (err =? 0).
+    + exists [], (mkCall true None err tot forced). auto 6.
+    + exists [], (mkCall true (Some (flat d)) err tot forced). auto 6.
+  - destruct (negb (err =? 0)).
+    + destruct (negb (dsize d =? 0)).
+      * exists [mkCall false (Some (flat d)) 0 tot forced], (mkCall true None err tot forced). repeat split; auto; discriminate.
+      * exists [], (mkCall true None err tot forced). repeat split; auto; discriminate.
+    + exists [], (mkCall true (Some (flat d)) err tot forced). repeat split; auto; discriminate.
+Qed.
+
+Lemma deliver_done_err stp o : exists pre k, snd (deliver_data stp FL_DONE o) = pre ++ [k] /\ c_done k = true /\
+  c_err k = (if (o_err o =? 0) && stp then ECANCELED else o_err o).
+Proof.
+  unfold deliver_data. cbn [f_deliver f_done FL_DONE orb]. unfold dd_decide. cbn [negb o_err set_flagd].
+  destruct ((o_err o =? 0) && stp);
+    (destruct (dd_data true _) as [d o2]; unfold dd_finish; cbn [negb orb f_noempty FL_DONE andb];
+     match goal with |- context [handler_calls ?w FL_DONE ?f ?dd ?e ?t] =>
+       destruct (handler_calls_done_err w FL_DONE f dd e t eq_refl) as (pre & k & E & D & Er & _) end;
+     exists pre, k; cbn [snd]; auto).
+Qed.
+
+(* an operation picked (or cleaned up) after the stop became visible completes with ECANCELED without touching
+   the descriptor, unless a descriptor error had already been recorded in the operation *)
+Theorem canceled_after_stop : forall c s e,
+  s_stopped s = true -> s_phase s = Idle -> (e = EvCheck \/ e = EvCleanup false) -> o_disk (s_op s) = false ->
+  let s' := step c s e in
+  s_phase s' = Completed /\ s_io s' = s_io s /\
+  exists pre k, s_calls s' = s_calls s ++ pre ++ [k] /\ c_done k = true /\
+    c_err k = (match e with EvCheck => ECANCELED | _ => if o_err (s_op s) =? 0 then ECANCELED else o_err (s_op s) end).
+Proof.
+  intros c s e St Ph He Hd s'. subst s'.
+  destruct He; subst e; cbn [step]; rewrite Ph.
+  - unfold get_error. rewrite St, orb_true_r. cbn [negb orb]. change (negb (ECANCELED =? 0)) with true. cbn iota.
+    unfold complete. cbn [s_stopped s_op].
+    pose proof (deliver_done_err (s_stopped s) (set_err (s_op s) ECANCELED)) as D.
+    destruct (deliver_data _ _ _) as [o cs]. cbn in *. destruct D as (pre & k & -> & Dk & Ek).
+    repeat split; auto. exists pre, k. repeat split; auto.
+  - unfold is_active. rewrite Hd, Ph. cbn [andb]. rewrite St.
+    unfold complete.
+    pose proof (deliver_done_err (s_stopped s) (s_op s)) as D.
+    destruct (deliver_data _ _ _) as [o cs]. cbn in *. destruct D as (pre & k & -> & Dk & Ek).
+    repeat split; auto. exists pre, k. repeat split; auto.
+    rewrite Ek, St. destruct (o_err (s_op s) =? 0); auto.
+Qed.
+
+(* ------------------------------------------------------------------ stream order *)
+Lemma pick_keeps_current q op : q_cur q = Some op -> so_random op = false -> pick_next q = Some op.
+Proof. intros H R. unfold pick_next. now rewrite H, R. Qed.
+Lemma pick_first q h t : q_cur q = None -> q_s q = h :: t -> pick_next q = Some h.
+Proof. intros H R. unfold pick_next. now rewrite H, R. Qed.
+
+(* a stream operation that has been picked stays the stream's current operation, whatever is enqueued behind it and
+   however often the handler runs, until a handler pass completes it; when it completes, the next pick is the head of
+   the STREAM list (FIFO: TAILQ_INSERT_TAIL / TAILQ_FIRST) *)
+Theorem stream_current_kept : forall q op e,
+  q_cur q = Some op -> so_random op = false ->
+  (match e with SEnq _ | SHandler HKeep => True | _ => False end) ->
+  q_cur (sstep q e) = Some op /\ pick_next (sstep q e) = Some op /\ q_done (sstep q e) = q_done q.
+Proof.
+  intros q op e C R He. destruct e as [x| [ | | ] |]; try contradiction; cbn [sstep].
+  - cbn. split; auto. split; auto. unfold pick_next. cbn. now rewrite C, R.
+  - rewrite (pick_keeps_current q op C R). cbn. split; auto. split; auto. unfold pick_next. cbn. now rewrite R.
+Qed.
+
+Theorem stream_completion_is_of_current : forall q op,
+  q_cur q = Some op -> so_random op = false ->
+  q_done (sstep q (SHandler HComplete)) = q_done q ++ [op] /\ q_cur (sstep q (SHandler HComplete)) = None.
+Proof.
+  intros q op C R. cbn [sstep]. rewrite (pick_keeps_current q op C R). unfold complete_op. cbn.
+  rewrite C. unfold same_op. now rewrite Z.eqb_refl.
+Qed.
+
+(* ------------------------------------------------------------------ channel parameters *)
+Lemma params_ok : forall chunk l,
+  0 <= chunk <= SIZE_MAX -> Forall (fun s => match s with SetLow v | SetHigh v => 0 <= v <= SIZE_MAX end) l ->
+  read_params_ok (apply_setters (params_init chunk 1) l).
+Proof.
+  intros chunk l Hc Hl. unfold apply_setters.
+  assert (I : read_params_ok (params_init chunk 1)).
+  { unfold read_params_ok, params_init. cbn [p_low p_high]. replace (1 * chunk) with chunk by lia.
+    rewrite u64_id; unfold SIZE_MAX in *; lia. }
+  revert I. generalize (params_init chunk 1). induction Hl as [|x l Hx Hl IH]; intros p I; simpl; auto.
+  apply IH. unfold read_params_ok in *. destruct x; unfold set_low_water, set_high_water; cbn.
+  - destruct (Z.ltb_spec (p_high p) v); destruct (Z.eqb_spec v 0); lia.
+  - rewrite Z.gtb_ltb. destruct (Z.ltb_spec v (p_low p)); destruct (Z.eqb_spec v 0); lia.
+Qed.
